@@ -101,7 +101,10 @@ impl CharScorer {
         let no_tag_ngrams = tag_ngram_model.iter().all(|m| m.0.is_empty());
         #[cfg(not(feature = "tag-prediction"))]
         let no_tag_ngrams = true;
-        if ngram_model.0.is_empty() && dict_model.0.is_empty() && no_tag_ngrams || window_size == 0
+        // Dictionary words carry their own positions, so they are scored even if the window size
+        // of character n-grams is zero.
+        if (ngram_model.0.is_empty() && no_tag_ngrams || window_size == 0)
+            && dict_model.0.is_empty()
         {
             return Ok(None);
         }
